@@ -75,6 +75,11 @@ def run(ck, m):
                      'entry from memory without a tombstone; with no tombstone the full synchronisation sends no replicate-remove and a node '
                      'that rejoins with an older snapshot keeps the key for ever')
     _alias.repeat(ck, m, 'C01', ('C01.g',), 'C05.n', key_filter=lambda k: 'only-an-unsaved-entry-stays-new' in k)
+    ck.rule('C05.o', 'the flag that decides between "send me what I missed" and "send me everything" says what happened (C16.b, repeated): '
+                     'every invalidation reaches byte 0 of the flag file, where the start-up reads it — a node that learnt a key it never '
+                     'persisted and restarts with the flag still reading valid asks for an incremental catch-up and never gets the writes '
+                     'that only lived in its memory')
+    _alias.repeat(ck, m, 'C16', ('C16.b',), 'C05.o', key_filter=lambda k: 'flag-written-at-offset-zero' in k or 'memory-equals-disk' in k)
     # the incremental catch-up is built from what the oplog query returns: the query's "last record of a key wins" rules are C12's
     # (d: files oldest first, live file last; h: every record inserted unconditionally); their verdicts are repeated here because a
     # key written and then removed while the node was away is removed on it only if the LAST record labels the key
